@@ -1157,7 +1157,7 @@ def _v1cm_term(r):
     raw = "[" + "; ".join(_coq_chars(l) for l in r["raw"]) + "]"
     items = []
     for n, cm in r["comments"]:
-        c = "None" if cm is None else "(Some [" + "; ".join(_coq_chars(x) for x in cm) + "])"
+        c = "(@None (list (list ch)))" if cm is None else "(Some [" + "; ".join(_coq_chars(x) for x in cm) + "])"
         items.append(f"({n}, {c})")
     return f"({raw}, [" + "; ".join(items) + "])"
 
